@@ -269,7 +269,7 @@ func genObs(t *rapid.T) []int {
 func TestLifecycle(t *testing.T) {
 	kit.Rec.Rule(rule)
 	rapid.Check(t, func(t *rapid.T) {
-		s := graph.Gen(t, graph.GenOpts{MinNodes: 2, MaxNodes: 6, Variants: "NNLLP", Aliases: true})
+		s := graph.Gen(t, graph.GenOpts{MinNodes: 2, MaxNodes: 6, Variants: "NNLLPE", Aliases: true})
 		Decide(t, s, genObs(t), "rich")
 	})
 }
